@@ -150,3 +150,58 @@ def halving_interval(n):
     from . import refmodel
     rebind(consensus, 'SUBSIDY_HALVING_INTERVAL', n)
     refmodel.HALVING = n
+
+
+class RecyclingIds:
+    """Adversarial but legal `id()`: CPython only promises that ids are unique among objects alive at the same time, and in
+    practice hands the address of a dead object to a later one whenever the allocator feels like it.  This stand-in makes
+    that reuse systematic: every object gets the smallest number not held by a live object (weak references notice
+    deaths).  Installed as the global name `id` of the skepticoin modules, so code that keys a cache by id(obj) without
+    keeping obj alive meets the collision it is exposed to, deterministically."""
+
+    def __init__(self):
+        import weakref
+        self._weakref = weakref
+        self.live = {}        # real id -> (number, weakref)
+        self.free = []
+        self.next = 1
+        self.calls = 0
+        self.pick = 0
+
+    def __call__(self, obj):
+        self.calls += 1
+        rid = _real_id(obj)
+        e = self.live.get(rid)
+        if e is not None and e[1]() is obj:
+            return e[0]
+        try:
+            def gone(_, rid=rid):
+                ent = self.live.pop(rid, None)
+                if ent is not None:
+                    self.free.append(ent[0])
+                    self.free.sort(reverse=True)
+            r = self._weakref.ref(obj, gone)
+        except TypeError:
+            return (1 << 40) + rid          # not weak-referenceable: its real id, in a range of its own
+        if self.free:
+            # which dead object's number is handed out is the harness's choice (`pick`), as it is the allocator's in CPython
+            num = self.free.pop(-1 - (self.pick % len(self.free)))
+        else:
+            num = self.next
+            self.next += 1
+        self.live[rid] = (num, r)
+        return num
+
+
+_real_id = id
+
+
+def recycling_ids():
+    """bind `id` in every loaded skepticoin module to one RecyclingIds instance; returns it"""
+    import sys
+    r = RecyclingIds()
+    for name, mod in list(sys.modules.items()):
+        if name.startswith('skepticoin') and mod is not None and hasattr(mod, '__dict__'):
+            mod.__dict__['id'] = r
+    INSTALLED.append('id() -> recycling ids in skepticoin modules')
+    return r
